@@ -1,4 +1,5 @@
 import Pds.Proofs.KernelTie.Cuckoo
+import Pds.Proofs.KernelTie.CuckooOps
 /-!
 # C14 — tie by translation: `CuckooFilter::fingerprint` and `CuckooFilter::hash` (arithmetic after `finish()`)
 -/
@@ -9,5 +10,49 @@ theorem fingerprint_translated (hash : List Nat → Nat) (lf x : Nat) :
     cuckoo_fingerprint lf (hash [0, x]) = Cuckoo.fingerprint hash lf x := cuckoo_fingerprint_eq hash lf x
 theorem bucket_hash_translated (hash : List Nat → Nat) (j x : Nat) :
     cuckoo_bucket_hash (2 ^ j) (hash [1, x]) = Cuckoo.bucketOf hash (2 ^ j) x := cuckoo_bucket_hash_eq hash j x
+
+/-! ### flow mode: the operations themselves -/
+
+/-- `delete` as translated (two `remove_from_bucket` scans, `n_elements -= 1`) on the model's table -/
+theorem delete_translated {R : Type} (hash : List Nat → Nat) (s : Cuckoo.St R) (x : Nat) :
+    cuckoo_delete s.bs s.table.toList s.n (Cuckoo.start hash s x).1 (Cuckoo.start hash s x).2.1 (Cuckoo.start hash s x).2.2 =
+      match Cuckoo.delete hash s x with
+      | none => Flow.panic
+      | some (s', b) => Flow.ret (b, (s'.table.toList, s'.n)) := by
+  rw [cuckoo_delete_eq]
+  unfold Cuckoo.delete
+  cases h1 : Cuckoo.removeFromBucket s.table s.bs (Cuckoo.start hash s x).2.1 (Cuckoo.start hash s x).1 with
+  | none => simp [h1]
+  | some r1 =>
+    cases r1 with
+    | some t' => simp [h1]
+    | none =>
+      cases h2 : Cuckoo.removeFromBucket s.table s.bs (Cuckoo.start hash s x).2.2 (Cuckoo.start hash s x).1 with
+      | none => simp [h1, h2]
+      | some r2 => cases r2 <;> simp [h1, h2]
+
+theorem query_translated {R : Type} (hash : List Nat → Nat) (s : Cuckoo.St R) (x : Nat) :
+    cuckoo_query s.bs s.table.toList (Cuckoo.start hash s x).1 (Cuckoo.start hash s x).2.1 (Cuckoo.start hash s x).2.2 =
+      match Cuckoo.query hash s x with
+      | none => Flow.panic
+      | some b => Flow.ret b := by
+  rw [cuckoo_query_eq]
+  unfold Cuckoo.query
+  cases h1 : Cuckoo.hasInBucket s.table s.bs (Cuckoo.start hash s x).2.1 (Cuckoo.start hash s x).1 with
+  | none => simp [h1]
+  | some b1 =>
+    cases b1 with
+    | true => simp [h1]
+    | false => simp only [h1]; rfl
+
+/-- `insert_internal` as translated (both direct writes, the coin, the eviction loop with its RNG requests,
+the undo log) is the model's `insertInternal`, for every hasher, RNG interface and kick limit -/
+theorem insert_internal_translated {R : Type} (I : Cuckoo.RngI R) (hash : List Nat → Nat) (bs nb kicks : Nat)
+    (t : Array Nat) (n : Nat) (rng : R) (lg : List (Nat × Nat)) (f i1 i2 : Nat) :
+    cuckoo_insert_internal R I (Cuckoo.bucketOf hash nb) bs t.toList n rng f i1 i2 lg kicks =
+      match Cuckoo.insertInternal I hash bs nb kicks t n rng lg.reverse f i1 i2 with
+      | none => Flow.panic
+      | some st => Flow.ret (resB st.res, (st.table.toList, st.n, st.rng, st.log.reverse)) :=
+  cuckoo_insert_internal_eq I hash bs nb kicks t n rng lg f i1 i2
 
 end Pds.Tie.C14
